@@ -29,11 +29,13 @@ func cliYAML(trace string) string {
 		fmt.Fprintf(&b, "  skipTask%d:\n    condition: \"exit 1\"\n    command: [\"echo skipTask%d >> %s\"]\n", i, i, trace)
 		fmt.Fprintf(&b, "  pok%d:\n    command: [\"echo okPipe%d >> %s\"]\n", i, i, trace)
 		fmt.Fprintf(&b, "  pfail%d:\n    command: [\"echo failPipe%d >> %s; exit 4\"]\n", i, i, trace)
+		fmt.Fprintf(&b, "  pslow%d:\n    command: [\"sleep 0.25\"]\n", i)
 	}
 	b.WriteString("pipelines:\n")
 	for i := 1; i <= 3; i++ {
 		fmt.Fprintf(&b, "  okPipe%d:\n    - task: pok%d\n", i, i)
-		fmt.Fprintf(&b, "  failPipe%d:\n    - task: pfail%d\n", i, i)
+		// a failing stage and an independent stage that succeeds later: the pipeline still fails
+		fmt.Fprintf(&b, "  failPipe%d:\n    - task: pfail%d\n    - task: pslow%d\n", i, i, i)
 	}
 	return b.String()
 }
